@@ -53,6 +53,7 @@ S1 ==
                  F("sr", N("SR")), F("srl", TList(N("SR"))),
                  \* leaves of the other built-in scalar types
                  F("fl", N("Float")), F("bo", N("Boolean")), F("idf", N("ID")), F("fnn", TNN(N("Float"))),
+                 F("cuf", N("Cu")), F("cunn", TNN(N("Cu"))),
                  [name |-> "f", type |-> N("Int"),
                   args |-> << ArgD("x", N("Int"), IntV("7")), Arg("y", N("Int")),
                               Arg("z", TList(N("Int"))), Arg("in", N("In")), Arg("en", N("E")) >>],
